@@ -265,7 +265,9 @@ def run(ctx):
 
         # ------------------------------------------------ oracle
         combos = [f for f in itertools.product((0, 1), repeat=4) if not (f[1] and not f[0])]
-        libs = [("cxx", base_lib("c++", r)), ("c", base_lib("c", r))]
+        nslib = base_lib("c++", r)
+        nslib.namespace = "qouter"        # the top-level `namespace:` field: the library's declarations live in a namespace node
+        libs = [("cxx", base_lib("c++", r)), ("c", base_lib("c", r)), ("cxxns", nslib)]
         ngen = 6 if thorough else 2
         for i in range(ngen):
             libs.append(("g%d" % i, libgen.gen_lib(r, name="qlib")))
@@ -282,7 +284,7 @@ def run(ctx):
                 check_config(ctx, res, lname)
                 n += 1
             ctx.sample({"library": lname, "flags": [1, 1, 1, 1], "listing": results[(1, 1, 1, 1)]["list"]}, cap=3)
-            if lname == "cxx":
+            if lname in ("cxx", "cxxns"):
                 # everything switched on: every declaration of the fixed library that the language can wrap is there
                 allon = results[(1, 1, 1, 1)]
                 if allon["exc"] is None:
@@ -343,7 +345,7 @@ def run(ctx):
             dd0 = lib.todict()
             ndecl = len(dd0["declarations"])
             ovsets = []
-            if lname == "cxx":
+            if lname in ("cxx", "cxxns"):
                 iov = [k for k, d0 in enumerate(lib.decls) if d0["decl"].startswith("void qover")]
                 ovsets.append([((iov[0],), {"wrap_c": False, "wrap_fortran": False})])          # first qover: scripting only
                 ovsets.append([((iov[1],), {"wrap_c": False, "wrap_fortran": False}), ((0,), {"wrap_python": False})])
@@ -373,14 +375,14 @@ def run(ctx):
                     common.rmtree(os.path.dirname(res["dirs"]["out"]))
                 ctx.nontrivial((lname, "ovbytes", oi))
             # per-declaration overrides on the libraries with searchable names
-            if lname in ("cxx", "c"):
+            if lname in ("cxx", "c", "cxxns"):
                 # NB: scratch directory tags must not contain the declaration names (setup.py records paths)
                 targets = [((0,), "qfun0"), ((1,), "qfun1"), ((2,), "qfun2")]
                 ienum = [k for k, d0 in enumerate(lib.decls) if d0["decl"].startswith("enum Qtone")][0]
                 targets.append(((ienum,), "qloud"))            # an enumeration (not wrapped for Lua at all)
                 only_kinds = {"qloud": ("c", "fortran", "python"), "qdark": ("c", "fortran", "python")}
                 tn = [0]
-                if lname == "cxx":
+                if lname in ("cxx", "cxxns"):
                     top = [d0["decl"] for d0 in lib.decls]
                     icls = [k for k, t in enumerate(top) if t.startswith("class Qcls")][0]
                     ins = [k for k, t in enumerate(top) if t.startswith("namespace qns")][0]
